@@ -11,7 +11,7 @@ PROP = 'C19'
 KERNELS = ['c19_ap_scale', 'c19_coat_init', 'c19_get_thickness', 'codec_flags'] + kernels_C19.CODEC_KERNELS
 THEOREMS = ['C19_dict_roundtrip_partial', 'C19_file_roundtrip_partial', 'C19_to_dict_json_safe_iff',
             'C19_dict_fixpoint_partial', 'C19_same_behaviour_partial', 'C19_reload_traces_identically_partial',
-            'C19_to_dict_injective_partial', 'C19_serialisable_after_edits', 'C19_reloadable_after_edits',
+            'C19_to_dict_injective_partial', 'C19_serialisable_after_edits', 'C19_reloadable_after_edits_partial',
             'C19_fixed_serialisable', 'C19_fixed_file_roundtrip', 'C19_decode_to_dict', 'C19_replay_waves_id',
             'C19_d_cs_e_cs', 'C19_coat_init_energy', 'C19_ap_scale_compose', 'C19_ap_scale_inverse']
 COQ_TARGETS = ['Lemmas/L_C19_Pins.vo', 'Lemmas/L_C19_Ex.vo', 'Lemmas/L_C19_Trace.vo', 'Model/M_C19_Run.vo']
@@ -35,13 +35,19 @@ RULE = ('lenses: tools/lensgen.gen_spec prescriptions (all surface types, catalo
         'BSDFs, Abbe/file/catalogue/Mirror materials, reference frames, wavelength units, telecentric flags, Fresnel '
         'coatings, polarization states, ImageSurface instances, missing aperture, then 0-5 edits out of set_radius/conic/'
         'thickness/index/asphere_coeff, scale_system, image_solve, pickups (radius/conic/thickness, also left stale), '
-        'marginal-ray solves, update(), short optimisations; non-trivial = lens with at least one decoration or edit')
+        'marginal-ray solves, update(), short optimisations, remove_surface(k), mid-lens add_surface(index=k), conic on a flat surface; every lens: load the same dictionary twice and compare it with a deep copy taken before, apply a fixed edit history to the original and to the reloaded lens, overwrite the reloaded lens and the dictionary in place and re-read the original; non-trivial = lens with at least one decoration or edit')
 PARTIAL = [
     'round-trip theorems carry the hypothesis `reloadable`: wavelength-list invariant kept by add_wavelength, a reload path '
     'for every class in the lens (image_from_dict / aperture_none_ok flags), and - while PickupManager.from_dict re-applies '
     'pickups - that the lens is at a fixed point of its pickups; file round trip additionally needs live_free (no Fresnel '
     'coating / polarization state unless their encoders exist).  With all listed defects repaired (impl_fixed) the only '
     'remaining hypothesis is the wavelength invariant (C19_fixed_file_roundtrip, C19_fixed_serialisable).',
+    'loadable also asks for plane_conic when a flat surface carries a conic (open finding plane-conic-dropped); '
+    'C19_reloadable_after_edits_partial therefore excludes, while that flag is false, edit histories that leave a conic on a flat surface',
+    'object identity is outside the typed model: that from_dict leaves its argument untouched, that a second load gives the same '
+    'lens and that the reloaded lens, the dictionary and the original share no mutable value (open finding '
+    'evenasphere-coeff-aliasing) are checked by the oracle only (scribble over the copy and the dictionary, re-read the original)',
+    'state read only by a later add_surface (SurfaceFactory.last_thickness) is not saved: the post-reload edit comparison leaves add_surface out',
     'ndarray-valued vertex positions (set_thickness / solves) are outside the typed state: detected by the harness '
     '(unrepresentable / json.dumps fails), not by a theorem',
     'the model is claimed on well-typed dictionaries only (a value of the wrong JSON type makes decode return None)',
@@ -120,7 +126,9 @@ def _edit_list(L, b, a):
     for j, (x, y) in enumerate(zip(sb, sa)):
         gy = geom(y)
         if gy[0] == 'GPlane' and geom(x)[0] == 'GStd':
-            es.append(f'ESetFlat {j}%nat')
+            es.append(f'ESetFlat {j}%nat {L.copt(L.cfl, gy[2])}')
+        elif gy[0] == 'GPlane' and geom(x)[0] == 'GPlane' and L.canon(gy[2]) != L.canon(geom(x)[2]):
+            es.append(f'ESetPlaneConic {j}%nat {L.copt(L.cfl, gy[2])}')
         if gy[0] != 'GPlane':
             es.append(f'ESetRadius {j}%nat {L.cfl(gy[2])}')
             es.append(f'ESetConic {j}%nat {L.cfl(gy[3])}')
